@@ -44,7 +44,12 @@ private:
 		template <typename ...Args>
 		auto operator() (Args && ...args) const
 			-> typename std::enable_if<internal_::CanInvoke<Callback, Args ...>::value, void>::type {
-			if(--data->triggerCount <= 0) {
+			// Don't decrement a count that is already zero or negative: the listener is removed
+			// on its first trigger anyway, and decrementing INT_MIN is a signed overflow.
+			if(data->triggerCount > 0) {
+				--data->triggerCount;
+			}
+			if(data->triggerCount <= 0) {
 				data->dispatcher.removeListener(data->event, data->handle);
 			}
 			data->listener(std::forward<Args>(args)...);
@@ -127,7 +132,11 @@ private:
 		template <typename ...Args>
 		auto operator() (Args && ...args) const
 			-> typename std::enable_if<internal_::CanInvoke<Callback, Args ...>::value, void>::type {
-			if(--data->triggerCount <= 0) {
+			// See the other CounterRemover for why the count is not decremented below zero.
+			if(data->triggerCount > 0) {
+				--data->triggerCount;
+			}
+			if(data->triggerCount <= 0) {
 				data->callbackList.remove(data->handle);
 			}
 			data->listener(std::forward<Args>(args)...);
